@@ -39,27 +39,26 @@ def expected_term(ans):
         sp = r["special"]
         if sp == "panic" or sp == "crash":
             return "([OPanic], [], 0)", r
-        if sp == "timeout":
-            return "([OFuel], [], 0)", r
-        return None, r
+        return None, r     # timeouts (possible non-termination) are reported to the caller, the model is not run on them
     outs = outcome_terms(r["results"])
     return f"([{'; '.join(outs)}], {coq_text(r['out'])}, {r['stats'].get('polls', '0')})", r
 
 PREAMBLE = """From PL Require Import Eval.PreludeState.
 Local Open Scope N_scope.
 Definition mf := N.to_nat 200000.
+Definition run_fuel := N.to_nat 30000.
 Definition ends_special (l : list outcome) : bool := match rev l with (OPanic | OFuel) :: _ => true | _ => false end.
 Definition chk (st0 : state) (c : text * (list outcome * text * N)) : bool :=
   let '(prog, (exp, eout, epolls)) := c in
-  let '(st, os) := run_text big_fuel st0 prog in
+  let '(st, os) := run_text run_fuel st0 prog in
   outcomes_match mf [] os exp && (ends_special exp || (text_eqb (out st) eout && (polls st =? epolls))).
 Definition chk_nopolls (st0 : state) (c : text * (list outcome * text * N)) : bool :=
   let '(prog, (exp, eout, epolls)) := c in
-  let '(st, os) := run_text big_fuel st0 prog in
+  let '(st, os) := run_text run_fuel st0 prog in
   outcomes_match mf [] os exp && (ends_special exp || text_eqb (out st) eout).
 """
 
-def correspond(name, programs, env="p", opts="", shard_size=60, timeout=20.0, profile="release", compare_polls=True, state_expr=None):
+def correspond(name, programs, env="p", opts="", shard_size=40, timeout=6.0, profile="release", compare_polls=True, state_expr=None):
     """returns (answers, parsed, bad_indices): programs on which model and implementation disagree"""
     answers = run_driver_cases(driver_lines(programs, env, opts), profile=profile, timeout=timeout)
     terms, idx, parsed = [], [], []
@@ -78,5 +77,5 @@ def correspond(name, programs, env="p", opts="", shard_size=60, timeout=20.0, pr
 def model_outcome(program, env="p", state_expr=None):
     """what the model computes for one program (for replay files / diagnostics)"""
     st = state_expr or STATE_OF[env]
-    src = PREAMBLE + f"Eval vm_compute in (let '(st, os) := run_text big_fuel {st} {coq_text(program)} in (os, out st, polls st)).\n"
+    src = PREAMBLE + f"Eval vm_compute in (let '(st, os) := run_text run_fuel {st} {coq_text(program)} in (os, out st, polls st)).\n"
     return coq_eval("model_one", src, timeout=600)[:6000]
